@@ -23,9 +23,11 @@ TYPES = {
     "RING5": dict(res=[("S", ["a"])] * 5, edges=[(0, 1), (1, 2), (2, 3), (3, 4), (0, 4)]),
     "RING6": dict(res=[("S", ["a"])] * 6, edges=[(0, 1), (1, 2), (2, 3), (3, 4), (4, 5), (0, 5)]),
     "DI3": dict(res=[("D", ["p", "q"]), ("D", ["p", "q"]), ("D", ["p", "q"])], edges=[(0, 1), (1, 2)]),
+    "MID7": dict(res=[("S", ["a"]), ("S", ["a"]), ("S", ["a"]), ("K", ["k"]), ("S", ["a"]), ("S", ["a"]), ("S", ["a"])],
+                 edges=[(i, i + 1) for i in range(6)]),
     "MIX3": dict(res=[("S", ["a"]), ("D", ["p", "q"]), ("T", ["x", "y", "z"])], edges=[(0, 1), (1, 2)]),
 }
-DEFAULT_VOLUMES = {"W": 0.5, "S": 0.5, "B": 1.0, "D": 0.5, "T": 1.0}
+DEFAULT_VOLUMES = {"W": 0.5, "S": 0.5, "B": 1.0, "D": 0.5, "T": 1.0, "K": 0.5}
 BOND_LEN = 0.3
 
 
@@ -80,7 +82,7 @@ def render_top(sysdef):
         atoms, bonds = type_atoms(tdef)
         out += ["[ moleculetype ]", f"{name} 1", "[ atoms ]"]
         for idx, resid, resname, an in atoms:
-            out.append(f"{idx} P {resid} {resname} {an} {idx}" + atom_mass_columns(sysdef, idx)[0])
+            out.append(f"{idx} P {resid - (1 if sysdef.get('resid_from_zero') else 0)} {resname} {an} {idx}" + atom_mass_columns(sysdef, idx)[0])
         if bonds:
             out.append("[ bonds ]")
             for a, b in bonds:
